@@ -94,8 +94,14 @@ def run_pair_case(x, y, op, rhs_kind):
         return "fail", dict(case=case, tags=dict(kind=kind, op=op), what=f"({x!r}) {op} ({y!r}) [{rhs_kind}]: {what}")
 
     X = mkset(x)
-    Y = mkset(y) if rhs_kind == "set" else D(y[0])
-    before = sig(X), (sig(Y) if rhs_kind == "set" else None)
+    if rhs_kind == "set-variant":
+        # the right set holds, for every shared letter, ANOTHER Dimension object (other name and items)
+        from flodym import DimensionSet
+
+        Y = DimensionSet(dim_list=[D(l, 1 if l in x else 0) for l in y])
+    else:
+        Y = mkset(y) if rhs_kind == "set" else D(y[0])
+    before = sig(X), (sig(Y) if rhs_kind != "dimension" else None)
     fn = {
         "|": lambda: X | Y, "&": lambda: X & Y, "-": lambda: X - Y, "^": lambda: X ^ Y, "+": lambda: X + Y,
         "union_with": lambda: X.union_with(Y), "intersect_with": lambda: X.intersect_with(Y), "difference_with": lambda: X.difference_with(Y),
@@ -108,10 +114,31 @@ def run_pair_case(x, y, op, rhs_kind):
         return "refused-as-required", None
     if st == "raised":
         return fail("raised", f"raised {got}")
-    if sig(got) != msig(want):
-        return fail("order", f"result {[s[0] for s in sig(got)]}, expected {want}")
-    if sig(X) != before[0] or (rhs_kind == "set" and sig(Y) != before[1]):
+    wsig = msig(want)
+    if rhs_kind == "set-variant":  # dimensions the result takes from the right set are the variant objects
+        ysig = {d[0]: d for d in sig(Y)}
+        wsig = [w if w[0] in x else ysig[w[0]] for w in wsig]
+    if sig(got) != wsig:
+        return fail("order", f"result {[(s[0], s[1]) for s in sig(got)]}, expected {[(w[0], w[1]) for w in wsig]} (left set's dimensions first, then the right set's new ones)")
+    if sig(X) != before[0] or (rhs_kind != "dimension" and sig(Y) != before[1]):
         return fail("operand-changed", "an operand was modified")
+    return "agrees-with-model", None
+
+
+def run_dimplus_case(x):
+    """Dimension + Dimension and Dimension + DimensionSet: refuse overlap, else ordered result"""
+    case = dict(kind="dimplus", x=x)
+    left = D(x[0])
+    probs = []
+    for other, letters in ((D(x[0]), None), (D(x[0], 1), None), (mkset(x), None), (mkset(x[1:]), [x[0]] + list(x[1:]))) + (((D("f"), [x[0], "f"]),) if x[0] != "f" else ()):
+        st, got = attempt(lambda: left + other)
+        if letters is None:
+            if st != "raised":
+                probs.append(f"Dimension {x[0]!r} + an operand that already has letter {x[0]!r} was accepted: {[d.letter for d in got]}")
+        elif st == "raised" or [d.letter for d in got] != letters:
+            probs.append(f"Dimension {x[0]!r} + {letters[1:]} gave {got if st == 'raised' else [d.letter for d in got]}")
+    if probs:
+        return "fail", dict(case=case, tags=dict(kind="dimplus", op="+"), what="; ".join(probs[:2]))
     return "agrees-with-model", None
 
 
@@ -434,6 +461,11 @@ def run_unit(u):
         for y in arrs:
             for op in BINOPS:
                 rec(*run_pair_case(x, y, op, "set"), nt=bool(x or y))
+                if op in ("|", "&", "-", "union_with") and any(l in x for l in y):
+                    rec(*run_pair_case(x, y, op, "set-variant"))
+        # '+' with a single Dimension as LEFT operand: a one-element set; overlap must be refused as well
+        if len(x) >= 1:
+            rec(*run_dimplus_case(x))
         rec(*run_lookup_case(x), nt=bool(x))
         for sel in arrs:
             if all(l in x for l in sel) or len(sel) <= 2:
@@ -465,6 +497,9 @@ def run_unit(u):
 def replay(case):
     if case["kind"] == "pair":
         oc, f = run_pair_case(case["x"], case["y"], case["op"], case["rhs"])
+        return [f] if f else []
+    if case["kind"] == "dimplus":
+        oc, f = run_dimplus_case(case["x"])
         return [f] if f else []
     if case["kind"] == "lookup":
         oc, f = run_lookup_case(case["x"])
